@@ -30,7 +30,7 @@ from mapproxy.service.base import Server
 from mapproxy.response import Response
 from mapproxy.source import SourceError
 from mapproxy.exception import RequestError
-from mapproxy.image import bbox_position_in_image, SubImageSource, BlankImageSource, GeoReference
+from mapproxy.image import bbox_position_in_image, SubImageSource, BlankImageSource, GeoReference, ImageSource
 from mapproxy.image.merge import concat_legends, LayerMerger
 from mapproxy.image.opts import ImageOptions
 from mapproxy.image.message import attribution_image, message_image
@@ -331,6 +331,9 @@ class WMSServer(Server):
         result = concat_legends(legends)
 
         img_opts = self.image_formats[request.params.format_mime_type]
+        # legends are read back from the legend cache as PNG files without format information:
+        # re-encode so that the body matches the declared content type
+        result = ImageSource(result.as_image(), image_opts=img_opts)
         return Response(result.as_buffer(img_opts), mimetype=mimetype)
 
     def _service_md(self, map_request):
